@@ -91,7 +91,7 @@ NA = {
 NOT_BUILT = "not built yet in this round (planned in DESIGN.md section 5)"
 ALL = ["C%02d" % i for i in range(1, 21)]
 
-G_SENTENCE = (" Call sites (Engine G): the libawkward C++ methods that call these kernels are executed symbolically from their clang AST, with path conditions, and every such call is checked against the kernel's contract (each buffer holds at least the extent the contract requires for the actual scalar arguments, scalar preconditions hold; count kernels and fill kernels are tied by a ghost count over the same input buffer); only the obligations that prove on the unchanged tree are counted, the others are listed as undecided call sites in the evidence.")
+G_SENTENCE = (" Call sites (Engine G): the libawkward C++ methods that call these kernels are executed symbolically from their clang AST, with path conditions, and every such call is checked against the kernel's contract (each buffer holds at least the extent the contract requires for the actual scalar arguments, scalar preconditions hold; count kernels and fill kernels are tied by a ghost count over the same input buffer), and every recursive call of reduce_next / sort_next / argsort_next / getitem_next is checked against the length preconditions of those virtual methods (the Index objects passed down have the length of the array they are passed to); only the obligations that prove on the unchanged tree are counted, the others are listed as undecided call sites in the evidence.")
 
 
 N_FAMILIES = {
